@@ -16,55 +16,68 @@ def oracles_():
 TRUSTED = [
     "tools/props/comps_xpath.py: XPath text <-> AST (renderer/parser) and the tree dump handed to the model",
     "the reference semantics coq/XPathSem.v (spec_flags) as a reading of the W3C XPath 1.0 recommendation",
+    "impl/t_xpath.c (driver: lyxp_eval, lyd_eval_xpath3/4, lyd_validate_module on the tree under test)",
 ]
 
 ASSUMPTIONS = [
-    "trees of the fixed module family a/b (containers, keyed lists incl. two keys and user-ordered, leaf-lists, defaults, "
-    "an augmenting second module); no metadata, no opaque nodes, no RPC/notification context, LY_VALUE_JSON prefixes",
-    "numbers: exponent range of long double not modelled (magnitudes between 2^-1000 and 2^1000)",
+    "correspondence runs: trees of the fixed module family a/b (containers, keyed lists incl. two keys, user-ordered and a "
+    "list directly in a list, leaf-lists, choice/case, defaults, an augmenting second module); no metadata, no opaque "
+    "nodes, no RPC/notification context, LY_VALUE_JSON prefixes; the must oracle uses its own generated modules (must only)",
+    "theorems about node-sets assume wf_tree (node ids are the pre-order positions); numbers: the exponent range of long "
+    "double is not modelled (generators keep magnitudes between 2^-1000 and 2^1000)",
 ]
 
 MANIFEST = {
-    "text": "The XPath evaluator of libyang as a whole (src/xpath.c, 10 kLoC) is NOT modelled statement by statement. The Coq "
+    "text": "MODELLED, NOT VERIFIED: the XPath evaluator of libyang (src/xpath.c, about 10 kLoC) is not transcribed. The Coq "
             "artefact is (A) an executable reference semantics of XPath 1.0 on YANG data trees written from the W3C "
             "recommendation (XPathSem.eval with spec_flags: 13 axes, node tests, predicates with position()/last(), filters, "
-            "unions, operators, core function library, current()), carrying one switch per construct in which xpath.c still "
-            "departs from the recommendation (impl_flags = as coded, 7 switches), proved to have the set-theoretic properties "
-            "of the property text FOR EVERY SETTING OF THE SWITCHES, in particular as coded: C08_eval_nodeset_sorted_nodup / "
-            "C08_eval_nodeset_nodup / C08_eval_nodeset_nodup_as_coded (every node-set value of every expression is strictly "
-            "increasing in document order, hence duplicate free), C08_union_comm, C08_predicate_true_identity, "
-            "C08_child_step_is_filter_of_children, C08_step_no_preds_is_union, C08_descendant_or_self_decomposes, "
-            "C08_fastpath_equiv (l[k='v'] selects exactly the instances whose key child has string value v); the lookup "
-            "clause (coq/XPathLookup.v): the as-coded condition of the key lookup as a boolean (ctx_free value: no relative "
-            "path start / implicit context node / position() / last() outside nested predicates; evaluates to a string or "
-            "exactly one node), the lookup itself (values evaluated once, instances whose key tuple has these values) and "
-            "C08_ctx_free_eval (such a value is the same for every instance, for every setting of the switches), "
-            "C08_lookup_eq_generic / C08_lookup_step_eq_generic (the lookup selects exactly the node-set, in the same order, "
-            "that generic evaluation of the predicates selects: every tree, context, context set, candidate list, number of "
-            "keys; recommendation flags - the type/canonical-form conditions of the code belong to the listed cmp-canonize "
-            "deviation), C08_lookup_answer_eq_eval (executable form, run on the pair-oracle inputs in the correspondence), "
-            "with the two defect classes repaired in 97c7154 as refutations of the old condition; and (B) the "
-            "conversion kernels modelled as coded (cast_string_to_number: Number syntax check + strtold, lyxp_set_cast number->string: "
-            "shortest decimal that strtold reads back, floorl/ceill, string-length/substring on bytes) with impl = spec theorems at "
-            "full strength where the code follows the recommendation (C08_s2n_impl_eq_spec for EVERY string and precision, "
-            "C08_n2s_impl_eq_spec for every long double, C08_floor_impl_eq_spec for all numbers) or on the domain where it does "
-            "(C08_string_length_ascii) with refutation witnesses elsewhere; "
-            "the two conversion kernels of the code are tied to the recommendation kernel at 64 bits. Tie to xpath.c: differential testing only - "
-            "lyxp_eval()/lyd_eval_xpath4() on generated expressions x trees x context nodes must answer the reference result, or "
-            "the as-coded result, in which case the needed switches name a LISTED deviation (known_findings.d/xpath.json: 7 "
-            "known, each with a replay on the real library; a switch whose replay answers the reference result is put back "
-            "for the run, so a repaired deviation needs no model change; 27 fixed in /repo 61e2388..c545a4e, whose witnesses "
-            "stay as regression cases); any other answer, crash or failed assertion is a violation. Oracles on the implementation "
-            "itself: key predicates answered by the hash lookup select the same nodes as forced generic evaluation, on lists "
-            "without and with the children hash table; the must decisions of lyd_validate_module() equal the conjunction of "
-            "lyd_eval_xpath3() of every must of every node (explicit, default leaf, implicit container, list instance) of the "
-            "default-completed tree on generated modules and data; no sanitizer report on generated expressions.",
-    "note": "Not modelled: deref(), re-match(), derived-from(-or-self)(), enum-value(), bit-is-set(), lang(), id(), "
-            "namespace-uri(), variables, metadata (attribute axis is empty in the model), opaque nodes, when/must integration, "
-            "schema (atom) evaluation. Unprefixed names follow the JSON rule (module of the parent node). The key lookup of "
-            "the code ([key=value] answered by one hash lookup) is not modelled: it must agree with generic evaluation (pair oracle with "
-            "literal, numeric, boolean and node-set values, also relative to the list instance and to its parent) and with "
-            "the reference semantics; no deviation of it is listed any more (repaired in /repo 434e77e, a599f2f, 97c7154).",
+            "unions, operators, core function library, current()) carrying one switch per construct in which xpath.c still "
+            "departs from it (impl_flags = as coded, 7 switches). Proved FOR EVERY SETTING OF THE SWITCHES (so also as coded), "
+            "for wf_tree trees: C08_eval_nodeset_sorted_nodup / C08_eval_nodeset_nodup / C08_eval_nodeset_nodup_as_coded (every "
+            "node-set value of every expression is strictly increasing in document order, hence duplicate free); without tree "
+            "hypothesis: C08_union_comm, C08_predicate_true_identity, C08_ctx_free_eval (a value expression without relative "
+            "path start / implicit context node / position() / last() outside nested predicates has the same value in every "
+            "context with the same current()). Proved for the RECOMMENDATION FLAGS ONLY (spec_flags): "
+            "C08_child_step_is_filter_of_children, C08_step_no_preds_is_union and C08_descendant_or_self_decomposes (wf_tree, "
+            "not the namespace/attribute axis), C08_fastpath_equiv (l[k='v'] from one context node selects exactly the "
+            "instances whose key child has string value v), and the lookup clause (coq/XPathLookup.v, a MODEL of the condition "
+            "of eval_name_test_try_compile_predicate_append since /repo 97c7154: lookup_ok = every value is context-free and "
+            "evaluates to a string or exactly one node; lookup_insts = values evaluated once, instances whose key tuple has "
+            "these strings): C08_lookup_eq_generic / C08_lookup_step_eq_generic (the lookup selects exactly the node-set, in "
+            "the same order, that generic evaluation of the key predicates selects - every tree, context, context set, "
+            "candidate list, number of keys) and C08_lookup_answer_eq_eval (executable form); the further conditions of the "
+            "code (type of the value node, canonical string for the key type) are NOT modelled, they exist because of the "
+            "listed deviation xpath-cmp-canonize; Examples C08_lookup_context_dependent_refuted / "
+            "C08_lookup_nodeset_as_string_refuted show that the condition before 97c7154 breaks the equation. (B) the "
+            "conversion kernels transcribed as coded (cast_string_to_number: Number syntax check + strtold; lyxp_set_cast "
+            "number->string: shortest decimal that strtold reads back; floorl/ceill; string-length on bytes): "
+            "C08_s2n_impl_eq_spec (every string, every precision), C08_n2s_impl_eq_spec (every long double: x_ld, a fixed point "
+            "of rounding to 64 bits; against the recommendation read at 64 bits, not at IEEE double), C08_floor_impl_eq_spec "
+            "(every number with non-negative magnitude, x_wf; equality up to x_same), C08_string_length_ascii (ASCII strings "
+            "only; beyond that bytes and characters differ: listed deviation xpath-string-bytes); regression Examples "
+            "C08_s2n_regression, C08_n2s_regression, C08_floor_ceiling_regression, C08_fastpath_nonstring_rhs_regression, "
+            "C08_hypotheses_satisfiable. TIE TO xpath.c - differential testing only (T2): lyxp_eval()/lyd_eval_xpath4() on "
+            "generated expressions x trees x context nodes (incl. the inputs of the pair oracle) must answer the reference "
+            "result, or the as-coded result, in which case the needed switches name a LISTED deviation (known_findings.d/"
+            "xpath.json, status known: xpath-predicate-position-global, xpath-cmp-canonize, xpath-namespace-axis, "
+            "xpath-text-nodes, xpath-string-value-indent, xpath-string-bytes, xpath-long-double, each with a replay on the "
+            "real library; a switch whose replay answers the reference result is put back for the run, so a repaired deviation "
+            "needs no model change; the deviations fixed in /repo 61e2388..c545a4e stay as regression cases); any other answer, "
+            "crash or failed assertion is a violation; cast_string_to_number and number->string are compared with the "
+            "recommendation kernels at 64 bits, and the modelled lookup answers the same as the evaluation on the cases that "
+            "take it. ORACLE LEVEL ONLY (implementation against itself, no model): key predicates answered by the hash lookup "
+            "select the same nodes as the same predicates forced to generic evaluation (literal, numeric, boolean and node-set "
+            "values, relative to the instance and to its parent; lists without and with the children hash table); "
+            "lyd_validate_module() refuses data exactly when lyd_eval_xpath3() of some must of some node (explicit, default "
+            "leaf, implicit container, list instance) of the default-completed tree is false; fixed expected answers for "
+            "metadata, comment(), the YANG functions, re-match() and schema atoms; no sanitizer or leak report.",
+    "note": "Outside the model (covered at most by fixed-answer regression cases of the oracle XPathRegress): deref(), "
+            "re-match(), derived-from(-or-self)(), enum-value(), bit-is-set(), lang(), id(), namespace-uri(), variables, metadata "
+            "(the attribute axis is empty in the model), opaque nodes, schema (atom) evaluation. when is outside everything; "
+            "must only through the decision oracle. Unprefixed names follow the JSON rule (module of the parent node). The "
+            "hash lookup code itself (moveto_node_hash_child, ly_path predicates, hash tables) is not transcribed: XPathLookup "
+            "models its condition and result at the level of node-sets, the tie is the correspondence run and the pair oracle; "
+            "no deviation of the lookup is listed any more (repaired in /repo 434e77e, a599f2f, 97c7154).",
     "technique": "Coq proof over an executable specification + as-coded kernels, differential correspondence (extracted OCaml vs C) "
                  "with deviation attribution, implementation-level oracles",
 }
